@@ -443,20 +443,38 @@ func attackOne(out *hx.Out, seed, c uint64, only string) {
 				signer = byzIDs[r.Intn(len(byzIDs))]
 			}
 			val, root := W, rootW
-			if r.Chance(1, 6) {
+			if r.Chance(1, 4) {
 				val = valueBytes(uint64(5*r.Intn(4) + 4)) // fails the value check
 				root = sha256.Sum256(val)
 			}
 			msg := s.base(specqbft.ProposalMsgType, round, root)
 			nrc := hx.Pick(r, q, q, q, q-1, 0)
+			// the round changes either are unprepared, or all claim that the value was prepared in round 1 and carry a
+			// quorum of prepares for it (signed by the other keys): the re-proposal of a "prepared" value
+			prepared := round > 1 && nrc > 0 && r.Chance(1, 2)
 			if round > 1 && nrc > 0 {
-				var just []*specqbft.SignedMessage
+				var just, preps []*specqbft.SignedMessage
+				if prepared {
+					for i := 0; i < q && i < len(byzIDs); i++ {
+						preps = append(preps, s.sign(byzIDs[i], s.base(specqbft.PrepareMsgType, 1, root), nil))
+					}
+				}
 				for i := 0; i < nrc && i < len(byzIDs); i++ {
-					just = append(just, s.sign(byzIDs[i], s.base(specqbft.RoundChangeMsgType, round, [32]byte{}), nil))
+					if prepared {
+						rc := s.base(specqbft.RoundChangeMsgType, round, root)
+						rc.DataRound = 1
+						rc.RoundChangeJustification, _ = specqbft.MarshalJustifications(preps)
+						just = append(just, s.sign(byzIDs[i], rc, val))
+					} else {
+						just = append(just, s.sign(byzIDs[i], s.base(specqbft.RoundChangeMsgType, round, [32]byte{}), nil))
+					}
 				}
 				msg.RoundChangeJustification, _ = specqbft.MarshalJustifications(just)
+				if prepared {
+					msg.PrepareJustification, _ = specqbft.MarshalJustifications(preps)
+				}
 			}
-			desc += fmt.Sprintf(" round=%d signer=%d leader=%d rcs=%d", round, signer, ld(round), nrc)
+			desc += fmt.Sprintf(" round=%d signer=%d leader=%d rcs=%d prepared=%v", round, signer, ld(round), nrc, prepared)
 			b := nd.deliver(s.sign(signer, msg, val))
 			np := hx.Pick(r, q, q, q, q-1, size-1)
 			preps := ofType(b, specqbft.PrepareMsgType)
